@@ -92,6 +92,20 @@ func genC12(r *Rng, n int, tier string, emit func(Case)) {
 	for i := 0; i < n; i++ {
 		rr := r.Fork()
 		x := jsonValue(rr, rr.Range(0, maxd))
+		if i%40 == 17 {
+			// a long chain of containers (a reply thread, a category tree): depth far beyond what breadth-first random values reach
+			depth := []int{30, 70, 130, 200}[rr.Intn(4)]
+			var v interface{} = jsonValue(rr, 1)
+			for dpt := 0; dpt < depth; dpt++ {
+				if rr.Bool() {
+					v = []interface{}{v}
+				} else {
+					v = map[string]interface{}{"id": float64(dpt), "replies": []interface{}{v}}
+					dpt++
+				}
+			}
+			x = v
+		}
 		emit(Case{"kind": "json", "x": x, "via": vias[i%3], "bucket": vias[i%3]})
 	}
 }
